@@ -26,6 +26,11 @@ def main():
             cex = json.load(f)
         return mod.replay(cex)
     os.environ["VERIF_TIER_EFFECTIVE"] = a.tier
+    if a.tier == "thorough":
+        os.environ.setdefault("VERIF_UNIT_BUDGET", "1500")
+    import faulthandler
+    import signal
+    faulthandler.register(signal.SIGUSR1, all_threads=True)
     chk = Check(a.pid.upper(), a.tier, seed)
     chk.only = a.only
     try:
